@@ -225,7 +225,7 @@ inductive Sub
   | svc (i : Nat) (v : SvcVerb)
   | app (i : Nat)                    -- `application <name> close`
   | nic (i : Nat) (v : NicVerb)
-  | opaque (ok : Bool)               -- anything else: touches none of the modelled state, answers `ok`
+  | opaque (r : Resp)                -- anything else: touches none of the modelled state; `r` = what the lower layers answer
 deriving DecidableEq, Repr
 
 /-- state validator of the service's own route -/
@@ -279,7 +279,7 @@ def handle (n : Node) (key : String) (sub : Sub) : Node × Resp :=
     | .svc i v => if key = "service" then svcRequest n i v else (n, .unreachable)
     | .app i => if key = "application" then appRequest n i else (n, .unreachable)
     | .nic i v => if key = "network_interface" then nicRequest n i v else (n, .unreachable)
-    | .opaque ok => (n, Resp.fromBool ok)
+    | .opaque r => (n, r)
 
 /-- `RequestManager.__call__` at the node level: unknown key → unreachable; validator false → failure; else the handler -/
 def request (tbl : List Route) (n : Node) (key : String) (sub : Sub) : Node × Resp :=
